@@ -82,6 +82,9 @@ def val_eq(m, a, b):
         if not isinstance(b, Agg): return False
         if a.ty in ("ArcIntern", "Arc", "Rc", "Box") and a.ty == b.ty:
             if a is b: return True
+            if a.ty == "ArcIntern":
+                ids = m.__dict__.get("_interned_ids")
+                if ids and id(a) in ids and id(b) in ids: return False          # two distinct interned objects hold different values
             return val_eq(m, a.fields[0], b.fields[0])
         if a.ty not in ("tuple", "Option", "Result") and m.world.is_derived(a.ty, "PartialEq") is False:
             idx = m.world.impl_index()
@@ -270,6 +273,9 @@ def g_as_ref(m, path, r):
     v = deref(r)
     if isinstance(v, VecObj): return Slice(v, 0, len(v.items))
     if isinstance(v, (Str, Slice)): return v
+    if isinstance(v, BoxObj): return Ref(v.fields, 0)
+    if isinstance(v, Agg) and v.ty in ("ArcIntern", "Arc", "Rc") and path.lstrip().startswith("<") and base_name(path.lstrip()[1:].split(" as ")[0]) == v.ty:
+        return Ref(v.fields, 0)          # `<ArcIntern<T> as AsRef<T>>::as_ref`: the pointee
     return r
 
 
@@ -367,8 +373,40 @@ def ptr_write(m, p, v):
 
 
 # ------------------------------------------------------------------ internment / once_cell
+def canon(v):
+    """hashable structural key of a fully concrete value, None if anything in it is symbolic"""
+    if isinstance(v, Ref): return canon(v.get())
+    if isinstance(v, Agg):
+        if v.tag is None and v.symtag is not None: return None
+        if v.fields is None: return None
+        ks = []
+        for x in v.fields:
+            k = canon(x)
+            if k is None: return None
+            ks.append(k)
+        return (v.ty, v.tag, tuple(ks))
+    if isinstance(v, Str): return ("s", v.s) if v.s is not None else None
+    if isinstance(v, bool) or isinstance(v, int): return ("i", v)
+    if isinstance(v, float): return ("f", "nan") if v != v else ("f", v)
+    if isinstance(v, str): return ("s", v)
+    if isinstance(v, VecObj):
+        ks = [canon(x) for x in v.items]
+        return None if any(k is None for k in ks) else ("v", tuple(ks))
+    if isinstance(v, BoxObj): return canon(v.fields[0])
+    return None
+
+
 @model("internment::ArcIntern::new", "ArcIntern::new")
-def arcintern_new(m, v): return Agg("ArcIntern", None, [v])
+def arcintern_new(m, v):
+    """concrete values are really interned (one object per distinct value, equality by identity), as in the library"""
+    k = canon(v)
+    if k is None: return Agg("ArcIntern", None, [v])
+    tbl = m.__dict__.setdefault("_intern_table", {})
+    hit = tbl.get(k)
+    if hit is None:
+        hit = tbl[k] = Agg("ArcIntern", None, [v])
+        m.__dict__.setdefault("_interned_ids", set()).add(id(hit))
+    return hit
 
 
 M["ArcIntern::from_ref"] = lambda m, r: Agg("ArcIntern", None, [deep_clone(deref(r))])
@@ -856,6 +894,53 @@ def complex_neg(m, c):
 
 
 M["<Complex as Neg>::neg"] = complex_neg
+
+
+def _cparts(v):
+    v = deref(v)
+    if isinstance(v, Agg): return v.fields[0], v.fields[1]
+    return v, 0.0           # a real scalar operand
+
+
+def _complex_binop(op):
+    def f(m, a, b):
+        (ar, ai), (br, bi) = _cparts(a), _cparts(b)
+        if any(is_sym(x) for x in (ar, ai, br, bi)): raise Unsupported(f"symbolic Complex {op}")
+        if op == "add": re, im = ar + br, ai + bi
+        elif op == "sub": re, im = ar - br, ai - bi
+        else: re, im = ar * br - ai * bi, ar * bi + ai * br
+        return Agg("Complex", None, [re, im])
+    return f
+
+
+for _op in ("Add", "Sub", "Mul"):
+    M[f"<Complex as {_op}>::{_op.lower()}"] = _complex_binop(_op.lower())
+
+
+def complex_norm(m, c):
+    import math
+    re, im = _cparts(c)
+    if is_sym(re) or is_sym(im): raise Unsupported("symbolic Complex::norm")
+    return math.hypot(re, im)
+
+
+M["Complex::norm"] = complex_norm
+
+
+def cmp_min_by_key(m, a, b, f):
+    """std::cmp::min_by_key: the first argument when the keys compare equal"""
+    ka, kb = m.call_value(f, [Ref([a], 0)]), m.call_value(f, [Ref([b], 0)])
+    return b if cmp_values(m, kb, ka) < 0 else a
+
+
+def cmp_max_by_key(m, a, b, f):
+    """std::cmp::max_by_key: the second argument when the keys compare equal"""
+    ka, kb = m.call_value(f, [Ref([a], 0)]), m.call_value(f, [Ref([b], 0)])
+    return a if cmp_values(m, kb, ka) < 0 else b
+
+
+M["std::cmp::min_by_key"] = M["core::cmp::min_by_key"] = cmp_min_by_key
+M["std::cmp::max_by_key"] = M["core::cmp::max_by_key"] = cmp_max_by_key
 
 
 @generic("<_ as Ord>::max", "<_ as Ord>::min")
